@@ -173,6 +173,8 @@ TEXT_LINES = [
   "<b><i>n</i></b>",
   "{underline}w{/underline} {u}z{/u}",
   '<font color="#00ff0000">t</font><font color="blue">n</font>',
+  '<font color="red">a<font color="#ffffff">w</font>b</font>',
+  '<font color="blue"><b>k<font color="white">w</font></b></font>',
 ]
 
 _TOKEN = re.compile(r"<(/?)(b|i|u|bold|italic|underline|font)(?: color=\"([^\"]*)\")?>|\{(/?)(b|i|u|bold|italic|underline)\}", re.I)
@@ -187,7 +189,7 @@ def reference_cue(text):
   reference_cue.ill_nested = False
   for m in _TOKEN.finditer(text):
     for ch in text[pos:m.start()]:
-      out.append((ch, frozenset(stack)))
+      out.append((ch, _eff(stack)))
     pos = m.end()
     closing = m.group(1) if m.group(2) else m.group(4)
     name = _CANON[(m.group(2) or m.group(5)).lower()]
@@ -202,12 +204,18 @@ def reference_cue(text):
       col = None
       if name == "font" and m.group(3):
         v = m.group(3).lower()
-        named = {"blue": "#0000ffff", "red": "#ff0000ff"}
+        named = {"blue": "#0000ffff", "red": "#ff0000ff", "white": "#ffffffff"}
         col = named.get(v, v if len(v) == 9 else v + "ff")
       stack.append((name, col))
   for ch in text[pos:]:
-    out.append((ch, frozenset(stack)))
+    out.append((ch, _eff(stack)))
   return out
+
+
+def _eff(stack):
+  """bold/italic/underline flags plus the colour in effect: the innermost font element's"""
+  fonts = [x for x in stack if x[0] == "font" and x[1] is not None]
+  return frozenset([x for x in stack if x[0] != "font"] + fonts[-1:])
 
 
 def observed_paragraph(p):
@@ -225,6 +233,7 @@ def observed_paragraph(p):
         st.add(("u", None))
       c = e.get_style(SP.Color)
       if c is not None:
+        st = set(x for x in st if x[0] != "font")     # a colour on a span overrides the inherited one
         st.add(("font", "#%02x%02x%02x%02x" % tuple(c.components)))
     if isinstance(e, model.Text):
       for ch in e.get_text():
@@ -244,9 +253,9 @@ class SrtStructureHarness(Harness):
                "srt.reader:_TextParser.handle_data")
   assumptions = ("file contents are selected by solver-decided selector variables from the line menu (no numeric symbol: a "
                  "solver-scheduled exhaustive enumeration of the bounded grammar)",)
-  outside = ("files with more than 2 cues or more than 2 text lines per cue; text lines outside the 11-entry menu",)
+  outside = ("files with more than 2 cues or more than 2 text lines per cue; text lines outside the 14-entry menu",)
   required_witnesses = ("two-cues", "crlf", "tags", "cue-without-text")
-  bounds = {"quick": "files of 1-2 cues: 0-1 leading blank lines, counter, time code, 0-2 text lines from an 11-entry menu (both tag "
+  bounds = {"quick": "files of 1-2 cues: 0-1 leading blank lines, counter, time code, 0-2 text lines from an 14-entry menu (both tag "
                      "syntaxes, nested, multi-line, stray end tag), 1-2 blank lines or EOF, LF or CRLF line ends",
             "thorough": "same with up to 3 text lines in the first cue"}
   budget_s = {"quick": 200, "thorough": 900}
